@@ -74,6 +74,12 @@ def is_nonneg(e, known=None, depth=0):
     if f is sp.Add:
         if all(is_nonneg(a, known, depth + 1) for a in e.args):
             return True
+        # x - Mod(x, b) >= 0 for x >= 0 ("round down to a multiple" idiom)
+        if len(e.args) == 2:
+            for a, b in (e.args, e.args[::-1]):
+                if b.is_Mul and b.args[0] == -1 and len(b.args) == 2 and b.args[1].func is sp.Mod \
+                        and b.args[1].args[0] == a and is_nonneg(a, known, depth + 1):
+                    return True
         # x - Min(0, ...) style and  a - b with a >= b known
         for k in known:
             try:
